@@ -48,7 +48,7 @@ V_ENSURES(V_IMP(flag == ADD && V_OLD(g_psrc->ev) == NULL && !V_OLD(g_oom_mask),
 ;
 #endif
 
-#ifdef V_SRCDTOR_UNIT
+#if defined(V_SRCDTOR_UNIT) || defined(V_CTXSRC_UNIT)
 V_CONTRACT
 int poll_set_new_evt(poll_priv_t *priv, ev_src_t *tmp, const enum op_type flag)
 V_REQUIRES(tmp == g_psrc && flag == RM && priv == &g_ctx->ppriv)
@@ -57,6 +57,8 @@ V_ENSURES(g.pollrm_calls == V_OLD(g.pollrm_calls) + 1 && g_psrc->ev == NULL
           && (g_psrc->type > M_SRC_TYPE_FD && V_OLD(g_psrc->ev) != NULL ? (g_psrc->fd_src.fd == -1 && g_open_fd == -1 && g.close_calls == V_OLD(g.close_calls) + 1)
                                                                         : (g_psrc->fd_src.fd == V_OLD(g_psrc->fd_src.fd) && g_open_fd == V_OLD(g_open_fd) && g.close_calls == V_OLD(g.close_calls))))
 ;
+#endif
+#ifdef V_SRCDTOR_UNIT
 V_CONTRACT
 static void src_priv_dtor(void *data)
 V_REQUIRES(v_base_ok() && data == (void *)g_psrc && V_RW_OK(g_psrc, sizeof(ev_src_t)) && g_psrc->type < M_SRC_TYPE_END && (g_psrc->mod == NULL || (g_psrc->mod == g_mod && V_R_OK(g_mod, sizeof(m_mod_t)) && g_mod->ctx == g_ctx)))
@@ -73,5 +75,22 @@ V_ENSURES(V_IMP(g_psrc->type > M_SRC_TYPE_FD, g_open_fd == -1 && g_psrc->ev == N
 /* a user-supplied descriptor is closed exactly when it was registered with the auto-close flag, once; otherwise never */
 V_ENSURES(V_IMP(g_psrc->type <= M_SRC_TYPE_FD, g.close_calls == V_OLD(g.close_calls) + ((g_psrc->flags & M_SRC_FD_AUTOCLOSE) ? 1 : 0)
                 && V_IMP(g_psrc->flags & M_SRC_FD_AUTOCLOSE, g.close_arg == V_OLD(g_psrc->fd_src.fd))))                                     /*@C20.user-descriptor-closed-iff-autoclose-exactly-once*/
+;
+#endif
+
+#ifdef V_CTXSRC_UNIT
+/* deregister_ctx_src() (src.c): removal of a context-level source (the tick timer).  src_priv_dtor() does NOT take module-less sources out of the
+ * poll set (its contract above assumes this function did), so this is the one place where the tick's timer descriptor is closed. */
+V_CONTRACT
+int deregister_ctx_src(m_ctx_t *c, ev_src_t **src)
+V_REQUIRES(v_base_ok() && c == g_ctx && V_RW_OK(g_ctx, sizeof(m_ctx_t)) && (src == NULL || src == &g_ctx->tick.src))
+V_REQUIRES(g_ctx->tick.src == NULL || (g_ctx->tick.src == g_psrc && V_RW_OK(g_psrc, sizeof(ev_src_t)) && g_psrc->type == M_SRC_TYPE_TMR && g_psrc->mod == NULL
+           && (g_psrc->ev != NULL ? (g_psrc->fd_src.fd == g_open_fd && g_open_fd >= V_LIBFD_BASE) : (g_psrc->fd_src.fd == -1 && g_open_fd == -1))))
+V_ASSIGNS(src != NULL && g_ctx->tick.src != NULL: g.pollrm_calls, g_psrc->ev, g_psrc->fd_src.fd, g_open_fd, g.close_calls, g.close_arg, g.unrefp_calls, g_ctx->tick.src)
+/* whatever the state of the loop (a source can be removed from a callback that runs while the loop is winding down), the source leaves the poll set --
+ * which is what closes its timer descriptor -- before the reference is dropped */
+V_ENSURES(V_IMP(src != NULL && V_OLD(g_ctx->tick.src) != NULL, V_RET == 0 && g.pollrm_calls == V_OLD(g.pollrm_calls) + 1 && g_open_fd == -1 && g_psrc->ev == NULL
+                && g.unrefp_calls == V_OLD(g.unrefp_calls) + 1 && g_ctx->tick.src == NULL))                                                 /*@C20.context-source-descriptor-closed-when-the-source-is-removed*/
+V_ENSURES(V_IMP(src == NULL || V_OLD(g_ctx->tick.src) == NULL, V_RET == 0 && g.pollrm_calls == V_OLD(g.pollrm_calls) && g.unrefp_calls == V_OLD(g.unrefp_calls)))
 ;
 #endif
